@@ -21,6 +21,8 @@
 (*     clearing phase), the run takes no index and reports an error         *)
 (*                                Req("index", k): ~earlyfail; Done: ~ok    *)
 (*     ("the next run clears again" then follows from S1 for the next run)  *)
+(* Because these clauses are not in the statement, checks/C06.py reports a  *)
+(* trace this contract rejects as DRIFT, never as a VIOLATION of C06.       *)
 (* A dry run (CommitTrash = false) is unconstrained: it sends no trash list *)
 (* and must not touch the lists the servers hold.                           *)
 (* A PUT that the harness made fail did not change the server's list.       *)
